@@ -197,6 +197,25 @@ def run(c, tier, what):
                "b = 60, heavy/light mixes; (m+4)*sum(w) < 2^63)")
     lines = [a[0] for a in acases]
     io = lib.run_lines([exe], lines)
+    # ---- the two non-default build configurations the project supports: same returned value and count, and a valid basis there too ----
+    def _canon(o):
+        try:
+            r, cy = O.parse_alg_output(o); return (r, len(cy))
+        except Exception:
+            return o
+    def _judge(cs, o):
+        t = cs.split(); n_, es_, _ = lib.parse_graph_tokens(t, 4)
+        if " RET " not in " " + o: return "%s did not return: %s" % (t[1], o[:160])
+        try:
+            r, cy = O.parse_alg_output(o)
+        except Exception:
+            return "unparsable answer: " + o[:160]
+        why_ = O.judge_basis(n_, es_, cy)
+        if why_: return "%s: %s" % (t[1], why_)
+        tot_ = sum(es_[i][2] for c_ in cy for i in c_ if isinstance(i, int) and 0 <= i < len(es_))
+        if isinstance(r, int) and r != tot_: return "%s: returned value %s != total weight %s of the emitted cycles" % (t[1], r, tot_)
+        return None
+    lib.config_differential(c, "c01", ["c01.cpp"], lines, io, judge=_judge, canon=_canon, libs=LIBS, limit=1200, judge_all=True)
     # ---- E-level: mcb_sva_signed vs model -------------------------------------------------------
     sidx = [i for i, l in enumerate(lines) if l.split()[1] == "signed" and " RET " in io[i]]
     mo = lib.run_model("signed", [model_case_of(lines[i], io[i]) for i in sidx], group="sva")
